@@ -218,6 +218,116 @@ func govcC06SrcsetProbes(urls, descs []string) []govcC06Probe {
 	}
 }
 
+// ---------------------------------------------------------------------------------------------
+// second family: the anchor's CONTENT shape x number/position of the links in the block x carrier.
+// Anchors are recognised in the output by a unique needle in their href (their text may be a symbol,
+// white space or nothing at all).
+// ---------------------------------------------------------------------------------------------
+
+type govcC06Shape struct {
+	key, inner string
+	images     []string // image URLs written inside the anchor
+}
+
+var govcC06Shapes = []govcC06Shape{
+	{"dagger", "†", nil},
+	{"arrow", "→", nil},
+	{"star-bracket", "[*]", nil},
+	{"pilcrow", "¶", nil},
+	{"backref", "↩", nil},
+	{"raquo", "&raquo;", nil},
+	{"hash", "#", nil},
+	{"number-bracket", "[1]", nil},
+	{"empty", "", nil},
+	{"space", " ", nil},
+	{"nbsp", "&nbsp;", nil},
+	{"one-letter", "a", nil},
+	{"cjk-one", "注", nil},
+	{"sup-dagger", "<sup>†</sup>", nil},
+	{"sup-number", "<sup>[2]</sup>", nil},
+	{"span-empty", `<span class="icon-link"></span>`, nil},
+	{"image-only", `<img src="/icons/external.png" width="12" height="12" alt="">`, []string{"/icons/external.png"}},
+	{"inline-markup-words", "<em>the <b>full</b> report</em>", nil},
+	{"worded", "the complete archive", nil},
+}
+
+// URL forms of the probe links ("%" is replaced by the needle)
+var govcC06LinkForms = []struct{ key, pattern string }{
+	{"relative", "rel/%.html"},
+	{"rooted-frag", "/rooted/%.html#n1"},
+	{"fragment", "#%"},
+}
+
+type govcC06Link struct{ needle, val string }
+
+// an arrangement puts one or two probe links (inner = the shape) and possibly a worded link into
+// the text of one block
+type govcC06Arrangement struct {
+	key   string
+	build func(link func(i int) string, worded string) string
+	count int // number of probe links
+}
+
+const (
+	govcC06TextA = "The harbour master keeps the older reports in a cabinet behind his desk and anyone may ask to see them during office hours"
+	govcC06TextB = "although the maps of the planned extension of the quay are stored at the council offices across the square"
+	govcC06TextC = "and copies of the letters from the shipping companies can be ordered for a small fee"
+)
+
+var govcC06Arrangements = []govcC06Arrangement{
+	{"only-mid", func(l func(int) string, w string) string {
+		return govcC06TextA + "," + l(1) + " " + govcC06TextB + " " + govcC06TextC + "."
+	}, 1},
+	{"only-first", func(l func(int) string, w string) string {
+		return l(1) + " " + govcC06TextA + " " + govcC06TextB + " " + govcC06TextC + "."
+	}, 1},
+	{"only-last", func(l func(int) string, w string) string {
+		return govcC06TextA + " " + govcC06TextB + " " + govcC06TextC + ". " + l(1)
+	}, 1},
+	{"twin", func(l func(int) string, w string) string {
+		return govcC06TextA + l(1) + ", " + govcC06TextB + l(2) + " " + govcC06TextC + "."
+	}, 2},
+	{"first-then-worded", func(l func(int) string, w string) string {
+		return l(1) + " " + govcC06TextA + " " + govcC06TextB + ", see " + w + " " + govcC06TextC + "."
+	}, 1},
+	{"worded-then-last", func(l func(int) string, w string) string {
+		return govcC06TextA + ", see " + w + " " + govcC06TextB + " " + govcC06TextC + ". " + l(1)
+	}, 1},
+}
+
+const govcC06WordedVal = "minutes/govcworded.html"
+
+var govcC06LinkCarriers = []struct {
+	key   string
+	build func(text string) string
+	fixed []string // image URLs the carrier itself writes
+}{
+	{"paragraph", func(x string) string { return `<p>` + x + `</p>` }, nil},
+	{"list-item", func(x string) string {
+		return `<ul><li>` + x + `</li><li>` + govcC06TextB + ` ` + govcC06TextC + `, as the clerk explained at length.</li></ul>`
+	}, nil},
+	{"blockquote", func(x string) string { return `<blockquote><p>` + x + `</p></blockquote>` }, nil},
+	{"div-text", func(x string) string { return `<div class="note">` + x + `</div>` }, nil},
+	{"heading", func(x string) string {
+		return `<h2>` + x + `</h2><p>` + govcC06TextA + ` ` + govcC06TextC + `.</p>`
+	}, nil},
+	{"table-cell", func(x string) string {
+		return `<table><caption>Freight volumes per year</caption><thead><tr><th>Year</th><th>Containers</th><th>Source</th></tr></thead><tbody><tr><td>2019</td><td>120000</td><td>` + x + `</td></tr><tr><td>2020</td><td>135000</td><td>harbour office</td></tr><tr><td>2021</td><td>150500</td><td>harbour office</td></tr></tbody></table>`
+	}, nil},
+	{"figcaption", func(x string) string {
+		return `<figure><img src="http://static.example.net/fixed.png" alt="quay"><figcaption>` + x + `</figcaption></figure>`
+	}, []string{"http://static.example.net/fixed.png"}},
+}
+
+func govcC06FindHref(root *html.Node, needle string) *html.Node {
+	for _, a := range dom.QuerySelectorAll(root, "a") {
+		if strings.Contains(dom.GetAttribute(a, "href"), needle) {
+			return a
+		}
+	}
+	return nil
+}
+
 func govcC06Doc(snippet string) string {
 	return `<html><head><title>Harbour report shows rising freight volumes</title></head><body><div id="content"><article>` +
 		`<p>` + govcC06Prose[0] + `</p><p>` + govcC06Prose[1] + `</p>` + snippet +
@@ -229,7 +339,7 @@ func TestGovcAbsURLReplay(t *testing.T) {
 	seen := map[string]bool{}
 	defer func() {
 		fmt.Printf("GOVC-CASES evaluations=%d distinct_nontrivial=%d rule=%s\n", evals, nontrivial,
-			"19 URL forms x 11 carriers (a[href] in paragraph/table cell/figcaption, img[src] standalone/div/figure/table cell, video poster/src, video>source, video>track) + srcset (6 shapes x 14 forms + 7 fixed substring/duplicate orderings) x 3 carriers (img, figure img, picture>source), each x 3 page URLs + no page URL (control: unchanged); expected value computed with net/url ResolveReference, exact equality; non-trivial = the carrying element was retained in Result.Node")
+			"19 URL forms x 11 carriers (a[href] in paragraph/table cell/figcaption, img[src] standalone/div/figure/table cell, video poster/src, video>source, video>track) + srcset (6 shapes x 14 forms + 7 fixed substring/duplicate orderings) x 3 carriers (img, figure img, picture>source), each x 3 page URLs + no page URL (control: unchanged); expected value computed with net/url ResolveReference, exact equality; second family: anchor content shape (symbol only: dagger, arrow, [*], pilcrow, back reference, raquo, #; [1]; empty; space; nbsp; one letter; one CJK character; <sup> symbol/number; empty span; image only; inline markup with words; plain words) x links in the block (the only link in the middle/at the start/at the end, two such links, first before a worded link, last after a worded link) x carrier (paragraph, list item, blockquote, div text, heading, data table cell, figcaption) x URL form (relative, rooted with fragment, fragment-only) with a page URL, relative also without page URL; non-trivial = the carrying element was retained in Result.Node (second family: every probe anchor found in the output by its href)")
 	}()
 
 	pages := []struct{ key, url string }{
@@ -237,6 +347,48 @@ func TestGovcAbsURLReplay(t *testing.T) {
 		{"httpsroot", "https://example.com/"},
 		{"dirquery", "http://example.com/a/b/?x=1"},
 		{"nopage", ""},
+	}
+
+	generic := func(key string, res *Result, base *nurl.URL, pgURL string, images []string) {
+		// (2) every URL-valued attribute of the distilled HTML outside embed placeholders
+		if base != nil {
+			for _, n := range dom.QuerySelectorAll(res.Node, "*") {
+				skip := false
+				for p := n; p != nil; p = p.Parent {
+					if p.Type == html.ElementNode && strings.Contains(dom.ClassName(p), "embed-placeholder") {
+						skip = true
+					}
+				}
+				if skip {
+					continue
+				}
+				for _, attr := range []string{"href", "src", "poster"} {
+					if v := dom.GetAttribute(n, attr); !govcC06AbsOrPass(v) {
+						t.Errorf("GOVC-FAIL %s/any-%s :: <%s %s=%q> in the distilled HTML is not absolute although page URL %s was supplied", key, attr, dom.TagName(n), attr, v, pgURL)
+					}
+				}
+				if ss := dom.GetAttribute(n, "srcset"); ss != "" {
+					for _, c := range govcC06ParseSrcset(ss) {
+						if !govcC06AbsOrPass(c.url) {
+							t.Errorf("GOVC-FAIL %s/any-srcset :: srcset candidate %q of <%s srcset=%q> is not absolute although page URL %s was supplied", key, c.url, dom.TagName(n), ss, pgURL)
+						}
+					}
+				}
+			}
+		}
+
+		// (3) ContentImages: each entry is the resolved form of an image URL of the document
+		allowed := map[string]bool{}
+		for _, im := range images {
+			allowed[govcC06Expected(im, base)] = true
+		}
+		for i, im := range res.ContentImages {
+			if base != nil && !govcC06AbsOrPass(im) {
+				t.Errorf("GOVC-FAIL %s/images :: ContentImages[%d]=%q is not absolute although page URL %s was supplied", key, i, im, pgURL)
+			} else if !allowed[im] {
+				t.Errorf("GOVC-FAIL %s/images :: ContentImages[%d]=%q is not an image URL of the page resolved against %q (image URLs written: %q)", key, i, im, pgURL, images)
+			}
+		}
 	}
 
 	type genCase struct {
@@ -334,43 +486,78 @@ func TestGovcAbsURLReplay(t *testing.T) {
 				fmt.Printf("GOVC-SAMPLE %s page=%s %s=%q -> %q images=%q\n", key, pg.url, pr.attr, govcC06SrcsetText(pr.vals, make([]string, len(pr.vals))), observed, res.ContentImages)
 			}
 
-			// (2) every URL-valued attribute of the distilled HTML outside embed placeholders
-			if base != nil {
-				for _, n := range dom.QuerySelectorAll(res.Node, "*") {
-					skip := false
-					for p := n; p != nil; p = p.Parent {
-						if p.Type == html.ElementNode && strings.Contains(dom.ClassName(p), "embed-placeholder") {
-							skip = true
+			generic(key, res, base, pg.url, pr.images)
+		}
+	}
+
+	// second family: anchor content shape x arrangement x carrier x URL form x page
+	for _, sh := range govcC06Shapes {
+		for _, ar := range govcC06Arrangements {
+			for _, ca := range govcC06LinkCarriers {
+				for _, lf := range govcC06LinkForms {
+					for _, pg := range pages {
+						if pg.key != "dirpage" && !(pg.key == "nopage" && lf.key == "relative") {
+							continue
 						}
-					}
-					if skip {
-						continue
-					}
-					for _, attr := range []string{"href", "src", "poster"} {
-						if v := dom.GetAttribute(n, attr); !govcC06AbsOrPass(v) {
-							t.Errorf("GOVC-FAIL %s/any-%s :: <%s %s=%q> in the distilled HTML is not absolute although page URL %s was supplied", key, attr, dom.TagName(n), attr, v, pg.url)
+						var base *nurl.URL
+						if pg.url != "" {
+							base, _ = nurl.Parse(pg.url)
 						}
-					}
-					if ss := dom.GetAttribute(n, "srcset"); ss != "" {
-						for _, c := range govcC06ParseSrcset(ss) {
-							if !govcC06AbsOrPass(c.url) {
-								t.Errorf("GOVC-FAIL %s/any-srcset :: srcset candidate %q of <%s srcset=%q> is not absolute although page URL %s was supplied", key, c.url, dom.TagName(n), ss, pg.url)
+						key := "anchor-" + sh.key + "/" + ar.key + "/" + ca.key + "/" + lf.key + "/" + pg.key
+						if seen[key] {
+							t.Fatalf("duplicate case key %s", key)
+						}
+						seen[key] = true
+						var links []govcC06Link
+						mk := func(i int) string {
+							needle := fmt.Sprintf("govcprobe%d", i)
+							val := strings.ReplaceAll(lf.pattern, "%", needle)
+							links = append(links, govcC06Link{needle, val})
+							return `<a href="` + govcC06Esc(val) + `">` + sh.inner + `</a>`
+						}
+						worded := `<a href="` + govcC06WordedVal + `">the council minutes</a>`
+						text := ar.build(mk, worded)
+						if strings.Contains(text, govcC06WordedVal) {
+							links = append(links, govcC06Link{"govcworded", govcC06WordedVal})
+						}
+						snippet := ca.build(text)
+						opts := &Options{SkipPagination: true}
+						if base != nil {
+							opts.OriginalURL = base
+						}
+						res, err := ApplyForReader(strings.NewReader(govcC06Doc(snippet)), opts)
+						evals++
+						if err != nil || res == nil || res.Node == nil {
+							t.Errorf("GOVC-FAIL %s :: distillation failed: %v", key, err)
+							continue
+						}
+						found := 0
+						for _, l := range links {
+							el := govcC06FindHref(res.Node, l.needle)
+							if el == nil {
+								continue
+							}
+							if l.needle != "govcworded" {
+								found++
+							}
+							got := dom.GetAttribute(el, "href")
+							want := govcC06Expected(l.val, base)
+							if got == want {
+								continue
+							}
+							if base == nil {
+								t.Errorf("GOVC-FAIL %s :: <a href=%q>%s</a> became href=%q although no page URL was supplied (must be unchanged)", key, l.val, sh.inner, got)
+							} else if !govcC06AbsOrPass(got) {
+								t.Errorf("GOVC-FAIL %s :: <a href=%q>%s</a> has href=%q in the distilled HTML: not absolute although page URL %s was supplied (expected %q); block: %.200s", key, l.val, sh.inner, got, pg.url, want, text)
+							} else {
+								t.Errorf("GOVC-FAIL %s :: <a href=%q>%s</a> has href=%q in the distilled HTML, which is not the value resolved against %s (expected %q; pass-through forms must be unchanged)", key, l.val, sh.inner, got, pg.url, want)
 							}
 						}
+						if found == ar.count {
+							nontrivial++
+						}
+						generic(key, res, base, pg.url, append(append([]string{}, ca.fixed...), sh.images...))
 					}
-				}
-			}
-
-			// (3) ContentImages: each entry is the resolved form of an image URL of the document
-			allowed := map[string]bool{}
-			for _, im := range pr.images {
-				allowed[govcC06Expected(im, base)] = true
-			}
-			for i, im := range res.ContentImages {
-				if base != nil && !govcC06AbsOrPass(im) {
-					t.Errorf("GOVC-FAIL %s/images :: ContentImages[%d]=%q is not absolute although page URL %s was supplied", key, i, im, pg.url)
-				} else if !allowed[im] {
-					t.Errorf("GOVC-FAIL %s/images :: ContentImages[%d]=%q is not an image URL of the page resolved against %q (image URLs written: %q)", key, i, im, pg.url, pr.images)
 				}
 			}
 		}
